@@ -17,10 +17,13 @@ def model(table, name, level, mode, wkind, e1, e2, ga_present):
     """The rules of the property statement (executable model). Returns (accept, reason)."""
     if name not in table:
         return False, "unknown isotope"
+    NAN = -999.0   # spec encoding of an undefined (NaN) limit: half-open windows are legal requests
+    lo = None if e1 == NAN else e1
+    hi = None if e2 == NAN else e2
     if wkind:
         if mode not in genmon.WINDOW_MODES:
             return False, "window on a mode that does not support one"
-        if not (e1 < e2):
+        if lo is not None and hi is not None and not (lo < hi):
             return False, "inverted window"
     if mode in GA_MODES:
         if name in GA_ISOTOPES and level == 0 and ga_present:
@@ -34,7 +37,7 @@ def model(table, name, level, mode, wkind, e1, e2, ga_present):
         return False, "level/energy/spin/sign/4b rules"
     if wkind:
         e0 = genmon.e0_of(table, name, level, mode)
-        if not (max(e1, 0.0) < min(e2, e0)):
+        if not (max(lo if lo is not None else 0.0, 0.0) < min(hi if hi is not None else 1e9, e0)):
             return False, "window does not intersect the kinematic range"
     return True, "rules satisfied"
 
@@ -53,15 +56,21 @@ def main():
     for name in names:
         for level in range(-1, 18):
             for mode in range(0, 26):
-                for wk in range(4):   # 0 none, 1 valid, 2 inverted, 3 valid window above the kinematic range
+                for wk in range(7):   # 0 none, 1 valid, 2 inverted, 3 above the kinematic range, 4 lower bound only, 5 upper bound only, 6 lower bound only above the range
                     if wk == 0:
                         w = (0, 0.0, 0.0)
                     elif wk == 1:
                         w = (1, 0.25, 0.75) if name not in table else (1, 0.0, max(0.03125, int(max(0.05, genmon.e0_of(table, name, max(0, min(level, max(table[name]["levels"]))), mode if 1 <= mode <= 20 else 1)) * 32) / 64.0))
                     elif wk == 2:
                         w = (1, 1.5, 0.5)
-                    else:
+                    elif wk == 3:
                         w = (1, 5.0, 6.0)
+                    elif wk == 4:
+                        w = (1, 0.03125, -999.0)
+                    elif wk == 5:
+                        w = (1, -999.0, 0.75)
+                    else:
+                        w = (1, 5.0, -999.0)
                     acc, why = model(table, name, level, mode, w[0], w[1], w[2], True)
                     if acc is None:
                         unspecified += 1
@@ -131,7 +140,7 @@ def main():
     chk.coverage.update({
         "evaluations": seen,
         "distinct_nontrivial": len(cellstate),
-        "rule": "grid = (51 isotopes + 4 unknown/mis-cased names) x levels -1..17 x modes 0..25 x {no window, valid, inverted, above the kinematic "
+        "rule": "grid = (51 isotopes + 4 unknown/mis-cased names) x levels -1..17 x modes 0..25 x {no window, valid, inverted, lower-bound-only, upper-bound-only, above the kinematic "
                 "range}; each cell is configured through decay0_generator and initialised; verdict compared with an executable model of the stated rules "
                 "(tables parsed from the reference source; gA datasets synthesised); accepted cells shoot 20 events through the C04 monitor, rejected "
                 "cells must not shoot; distinct = distinct (mode, window kind, model verdict, generator verdict) classes observed",
